@@ -338,6 +338,7 @@ func (gridSim) Run(e *Env, ci interface{}) {
 		}
 	}
 	res := r.run1(cm, "cell")
+	deadlockInfo := r.s.DeadlockInfo
 	var srvPanics []string
 	if r.srv != nil {
 		srvPanics = r.srv.Panics
@@ -350,6 +351,9 @@ func (gridSim) Run(e *Env, ci interface{}) {
 	cell := fmt.Sprintf("%s archive=%s window=%s env=%s text-out=%s remote=%v via-parse=%v layout=%s", c.Kind, c.ArchSel, c.Window, fault, cm.TextOut, c.Remote, c.ViaParse, c.Layout)
 	e.State(hashStr(fmt.Sprintf("%s|%s|%s|%s|%s|%v", c.Kind, c.ArchSel, c.Window, fault, cm.TextOut, c.Remote)))
 	if res.aborted {
+		// neither an effect nor an error: the command never returned (every
+		// goroutine parked or waiting, nothing runnable for a simulated hour)
+		e.Violate("C16.terminates", "%s: the command did not terminate;%s", cell, deadlockInfo)
 		return
 	}
 	if len(res.panics) > 0 {
